@@ -1521,6 +1521,95 @@ def c01_obligations(seed, tier='quick'):
     return obs
 
 
+def hedge_param_history_ob(stepwise):
+    """C14/C16: a hedger evaluated twice on the SAME derivative and the same paths, with a model parameter updated in place in
+    between (what an optimiser step does), returns the hedge of the CURRENT parameters - nothing is remembered per paths/derivative."""
+    tag = 'stepwise,T=3' if stepwise else 'vectorised,all T'
+
+    def check():
+        t0 = time.time()
+        import torch
+        import pfhedge.nn as pnn
+        hyps = DIMS + [tm.gt(tm.var('theta'), tm.ZERO)]
+        old = _set_T(3 if stepwise else T)
+        try:
+            def run(c):
+                d = mk_derivative()
+                assume_positive_spot(c)
+                feats = ['log_moneyness', 'time_to_maturity', 'volatility'] + (['prev_hedge'] if stepwise else [])
+                hedger = pnn.Hedger(UserModel.make(1), feats)
+                hedger.compute_hedge(d)
+                hedger.compute_pl(d)
+                with torch.no_grad():
+                    hedger.model.theta.mul_(2.0)          # an optimiser step: the parameter is updated in place
+                again = hedger.compute_hedge(d)
+                m2 = UserModel.make(1)
+                with torch.no_grad():
+                    m2.theta.mul_(2.0)
+                fresh = pnn.Hedger(m2, feats).compute_hedge(d)
+                return again, fresh
+            paths = explore(run, hyps, max_paths=8)
+        finally:
+            _set_T(old)
+        n, j = tm.var('n', 'I'), tm.var('j', 'I')
+        nvc = 0
+        for p in paths:
+            if p.outcome() != 'returns':
+                return Verdict('unknown', 'engine', time.time() - t0, 'path %s: %s %s' % (p.outcome(), p.exception, p.traceback[-500:]))
+            a, b = p.result
+            if len(a._shape) != 3 or len(b._shape) != 3:
+                return Verdict('refuted', 'shape', time.time() - t0, 'shapes %s / %s' % (a._shape, b._shape), witness={}, replay=_replay_param_history())
+            Tn = a._shape[2]
+            cols = [tm.const(k_, 'I') for k_ in range(Tn)] if isinstance(Tn, int) else [j]
+            for col in cols:
+                rng = [tm.le(tm.IZERO, n), tm.lt(n, N)] + ([tm.le(tm.IZERO, j), tm.lt(j, tm.as_term(lift(Tn)))] if col is j else [])
+                r = fc.prove_eq(p.facts(hyps) + rng, a.at((n, tm.IZERO, col)), b.at((n, tm.IZERO, col)), timeout_ms=20000)
+                nvc += 1
+                if r.status != 'unsat':
+                    rp = _replay_param_history()
+                    return Verdict('refuted' if (r.status == 'sat' or rp.get('confirmed')) else 'unknown', r.backend, time.time() - t0,
+                                   'second evaluation after an in-place parameter update: %s; fresh hedger with the updated parameter: %s' % (tm.show(a.at((n, tm.IZERO, col)))[:200], tm.show(b.at((n, tm.IZERO, col)))[:200]),
+                                   witness={'again': tm.show(a.at((n, tm.IZERO, col)))[:300]}, replay=rp)
+        return Verdict('proved', 'z3', time.time() - t0, '%d VCs' % nvc, sample={'claim': 'compute_hedge after an in-place parameter update == fresh hedger with the updated parameter', 'scenario': tag})
+    return Obligation('HS/compute_hedge/history[parameter updated in place,%s]' % tag, 'post', 'pfhedge.nn.modules.hedger.Hedger.compute_hedge', check, ['C14', 'C16'],
+                      clause='compute_hedge on the same derivative and paths, after a model parameter was updated in place, is the hedge of the current parameters [%s]' % tag)
+
+
+PARAM_HISTORY_REPLAY = '''
+import copy
+import pfhedge.nn as pnn
+from pfhedge.instruments import BrownianStock, EuropeanOption
+torch.manual_seed(3)
+bad = []
+d = EuropeanOption(BrownianStock(sigma=0.3, dt=0.01), strike=1.01, maturity=0.05); d.simulate(n_paths=6)
+for feats in (["log_moneyness", "time_to_maturity"], ["log_moneyness", "time_to_maturity", "prev_hedge"]):
+    model = torch.nn.Sequential(torch.nn.Linear(len(feats), 4), torch.nn.Tanh(), torch.nn.Linear(4, 1))
+    hedger = pnn.Hedger(model, feats)
+    crit = pnn.EntropicRiskMeasure()
+    first = crit(hedger.compute_pl(d)); first.backward()
+    with torch.no_grad():
+        for q in model.parameters(): q.add_(0.3 * torch.ones_like(q))            # parameters updated in place, same paths
+    got = hedger.compute_hedge(d).detach()
+    ref = pnn.Hedger(copy.deepcopy(model), feats).compute_hedge(d).detach()
+    if not torch.allclose(got, ref, atol=1e-7): bad.append((len(feats), "hedge after an in-place parameter update differs from a fresh hedger with the same parameters", float((got - ref).abs().max())))
+    # gradient of the loss on the same paths against central finite differences
+    for q in model.parameters(): q.grad = None
+    loss = crit(hedger.compute_pl(d)); loss.backward()
+    q = next(model.parameters()); g = float(q.grad.flatten()[0]); eps = 1e-4
+    with torch.no_grad():
+        q.flatten()[0].add_(eps); lp = float(crit(hedger.compute_pl(d))); q.flatten()[0].sub_(2 * eps); lm = float(crit(hedger.compute_pl(d))); q.flatten()[0].add_(eps)
+    fd = (lp - lm) / (2 * eps)
+    if abs(fd - g) > 1e-3 * max(1.0, abs(g)) + 2e-4: bad.append((len(feats), "gradient %.6f, finite differences on the same paths %.6f" % (g, fd)))
+result = {"got": [str(b) for b in bad], "ref": []}
+'''
+
+
+def _replay_param_history():
+    r = real_exec(PARAM_HISTORY_REPLAY, {}, timeout=300)
+    ok = r.get('ok') and r['result']['got'] == []
+    return {'real': r, 'confirmed': not ok, 'note': 'replay: hedge and loss gradient on the same simulated paths after the parameters were updated in place, against a fresh hedger / finite differences (float32 tolerances)'}
+
+
 # ------------------------------------------------------------------ C16: frames and history independence
 
 def frame_ob(oid, function, run, hyps, clause, props=('C16',), replay=None):
@@ -1628,7 +1717,7 @@ def _replay_history():
 
 def c16_obligations(seed, tier='quick'):
     import torch
-    obs = []
+    obs = [hedge_param_history_ob(False), hedge_param_history_ob(True)]
 
     def run_pl(c):
         d = mk_derivative(cost=SReal(tm.var('c1')))
